@@ -819,4 +819,24 @@ def run (w : Wiring) (s : AState) : List Label → Option AState
     | some s' => run w s' ls
     | none => none
 
+/-- The client drops the future of an operation whose submission went through.  A failed submission resolves at
+    the first poll of the future, so a client that polled it at least once (the harness always does) returns
+    from it rather than dropping it.  `dstep` is the guarded step with that extra guard on `cdrop`; every
+    `drun` is a `grun` (`Proofs/C05DRun.lean`), and the acceptor uses `dstep`. -/
+def AState.cdropOk (s : AState) (o : Nat) : Bool :=
+  match s.findOp o with
+  | some rec => (match rec.st with | .failed _ => false | _ => true)
+  | none => true
+
+def dstep (w : Wiring) (s : AState) (l : Label) : Option AState :=
+  match l with
+  | .cdrop o => if s.cdropOk o then gstep w s l else none
+  | _ => gstep w s l
+
+def drun (w : Wiring) (s : AState) : List Label → Option AState
+  | [] => some s
+  | l :: ls => match dstep w s l with
+    | some s' => drun w s' ls
+    | none => none
+
 end Hannibal
